@@ -12,6 +12,12 @@ def expected(parts):
         return hashlib.sha256(unhex(parts[2])).hexdigest()
     if k == "M":
         return hmac.new(unhex(parts[1]), unhex(parts[2]), hashlib.sha256).hexdigest()
+    if k == "L":
+        n = int(parts[1]); blk = bytes(range(256)) * 4096; h = hashlib.sha256()
+        while n >= len(blk):
+            h.update(blk); n -= len(blk)
+        h.update(blk[:n])
+        return h.hexdigest()
     return None
 
 def near(n):
@@ -35,6 +41,8 @@ def nontrivial(parts):
     if k == "M":
         kl = len(unhex(parts[1]))
         return kl in (63, 64, 65) or near(len(unhex(parts[2])))
+    if k == "L":
+        return True
     return False
 
 def binary(api, prop, part):
@@ -70,7 +78,7 @@ def run(prop, part, tier, seed, cfg, findings, api):
             nt.add(hash(line))
             if len(res["samples"]) < 3 and len(line) < 400:
                 res["samples"].append(line.strip())
-        if parts[0] == "H" and parts[2].count(",") == 1 and len(unhex(parts[1])) <= 130:
+        if parts[0] == "H" and parts[2].count(",") == 1 and len(parts[1]) <= 260:
             twoway += 1
     err = p.stderr.read()
     rc = p.wait()
@@ -99,7 +107,7 @@ def replay(prop, part, path, api, quiet=False):
             rec = l.split()
     if not rec:
         return 2
-    r = subprocess.run([b, "one"] + rec[:4 if rec[0] != "M" else 3], stdout=subprocess.PIPE, stderr=subprocess.STDOUT, text=True, env=api.env_with())
+    r = subprocess.run([b, "one"] + rec[:4 if rec[0] not in ("M", "L") else 3], stdout=subprocess.PIPE, stderr=subprocess.STDOUT, text=True, env=api.env_with())
     parts = r.stdout.split()
     ok = r.returncode == 0 and len(parts) >= 4 and expected(parts) == parts[-1]
     if not quiet:
